@@ -3,7 +3,8 @@ From Coq Require Import List Arith Bool Lia Permutation.
 From C31 Require Import Model.
 Import ListNotations.
 
-Definition fired (e : ev) : list nat := match e with EResult c _ => [c] | _ => [] end.
+(** the dispatcher fires the Deferred of call c (a cancelled Deferred swallows that result: EAbsorbed) *)
+Definition fired (e : ev) : list nat := match e with EResult c _ | EAbsorbed c _ => [c] | _ => [] end.
 Definition F (l : list ev) : list nat := flat_map fired l.
 Definition O (s : st) : list nat := map snd (outA s) ++ map snd (outB s).
 
@@ -81,7 +82,9 @@ Qed.
 Lemma fire_result_T : forall q c r s s' e, fire_result q c r s = (s', e) ->
   Permutation (F e ++ O s') (c :: O s ++ seq (ncalls s) (ncalls s' - ncalls s)) /\ ncalls s <= ncalls s' /\ up s' = up s.
 Proof.
-  intros q c r s s' e H. unfold fire_result in H. destruct (mem c (follows s)).
+  intros q c r s s' e H. unfold fire_result in H. destruct (mem c (cancelled s)).
+  { injection H as <- <-. rewrite Nat.sub_diag. cbn. rewrite app_nil_r. auto. }
+  destruct (mem c (follows s)).
   - destruct (nested q s) as [s1 e1] eqn:E1. injection H as <- <-.
     destruct (nested_T _ _ _ _ E1) as [[N P] U]. repeat split; auto. cbn. now constructor.
   - injection H as <- <-. rewrite Nat.sub_diag. cbn. rewrite app_nil_r. auto.
@@ -91,6 +94,7 @@ Lemma fire_result_down : forall q c r s s' e, up s = false -> fire_result q c r 
   outA s' = outA s /\ outB s' = outB s /\ chA s' = chA s /\ chB s' = chB s.
 Proof.
   intros q c r s s' e U H. unfold fire_result, nested, place in H. rewrite U in H.
+  destruct (mem c (cancelled s)); [injection H as <- <-; auto|].
   destruct (mem c (follows s)); injection H as <- <-; cbn; auto.
 Qed.
 
@@ -131,25 +135,28 @@ Qed.
 
 Definition Down (s : st) : Prop := up s = false -> outA s = [] /\ outB s = [] /\ chA s = [] /\ chB s = [].
 
-Lemma fail_all_spec : forall l fol n e n', fail_all l fol n = (e, n') ->
+Lemma fail_all_spec : forall l fol can n e n', fail_all l fol can n = (e, n') ->
   n <= n' /\ Permutation (F e) (map snd l ++ seq n (n' - n)).
 Proof.
-  induction l as [|[t c] l IH]; intros fol n e n' H; cbn in H.
+  induction l as [|[t c] l IH]; intros fol can n e n' H; cbn in H.
   - injection H as <- <-. rewrite Nat.sub_diag. split; auto.
-  - destruct (mem c fol).
-    + destruct (fail_all l fol (S n)) as [e2 n2] eqn:E2. injection H as <- <-.
-      destruct (IH _ _ _ _ E2) as [N P]. split; [lia|]. cbn [F flat_map fired app map snd].
+  - destruct (mem c can).
+    { destruct (fail_all l fol can n) as [e2 n2] eqn:E2. injection H as <- <-.
+      destruct (IH _ _ _ _ _ E2) as [N P]. split; auto. cbn [F flat_map fired app map snd]. constructor. exact P. }
+    destruct (mem c fol).
+    + destruct (fail_all l fol can (S n)) as [e2 n2] eqn:E2. injection H as <- <-.
+      destruct (IH _ _ _ _ _ E2) as [N P]. split; [lia|]. cbn [F flat_map fired app map snd].
       replace (n2 - n) with (S (n2 - S n)) by lia. cbn [seq]. constructor.
       change (flat_map fired e2) with (F e2).
       eapply perm_trans; [|apply Permutation_middle]. constructor. exact P.
-    + destruct (fail_all l fol n) as [e2 n2] eqn:E2. injection H as <- <-.
-      destruct (IH _ _ _ _ E2) as [N P]. split; auto. cbn [F flat_map fired app map snd]. constructor. exact P.
+    + destruct (fail_all l fol can n) as [e2 n2] eqn:E2. injection H as <- <-.
+      destruct (IH _ _ _ _ _ E2) as [N P]. split; auto. cbn [F flat_map fired app map snd]. constructor. exact P.
 Qed.
 
 Lemma lose_T : forall s s' e, lose s = (s', e) -> T s e s' /\ up s' = false /\ Down s'.
 Proof.
   intros s s' e H. unfold lose in H. destruct (fail_all _ _ _) as [e1 n1] eqn:E1. injection H as <- <-.
-  destruct (fail_all_spec _ _ _ _ _ E1) as [N P]. split; [|split].
+  destruct (fail_all_spec _ _ _ _ _ _ E1) as [N P]. split; [|split].
   - split; [exact N|]. cbn [ncalls]. unfold O at 1. cbn. rewrite app_nil_r. unfold O. now rewrite <- map_app.
   - reflexivity.
   - intros _. cbn. auto.
@@ -213,7 +220,7 @@ Proof. intros s U H. congruence. Qed.
 
 Lemma step_T : forall s o, Down s -> T s (snd (step s o)) (fst (step s o)) /\ Down (fst (step s o)).
 Proof.
-  intros s o HD. destruct o as [p k f|d n|i o|]; cbn [step].
+  intros s o HD. destruct o as [p k f|d n|i o|c|]; cbn [step].
   - (* call *)
     set (s0 := if f then set_follows (ncalls s :: follows s) s else s).
     assert (T0 : T s [] s0) by (unfold s0; destruct f; [apply T_same_outs; reflexivity | apply T_refl]).
@@ -247,6 +254,17 @@ Proof.
         -- cbn [fst snd]. split; [apply T_same_outs; destruct me; reflexivity | apply Down_up; destruct me; cbn; auto].
       * split; [apply T_same_outs; reflexivity|]. intros U. destruct (HD Hup) as (A & B & CA & CB). cbn. auto.
     + split; [apply T_same_outs; reflexivity | exact HD].
+  - (* cancel *)
+    destruct (mem c (cancelled s)); [cbn [fst snd]; split; [apply T_refl | exact HD]|].
+    destruct (up s) eqn:Hup.
+    + destruct (if mem c (map snd (outA s)) then Some false else if mem c (map snd (outB s)) then Some true else None) as [p|];
+        [|cbn [fst snd]; split; [apply T_refl | exact HD]].
+      assert (T0 : T s [ECancelled c] (set_cancelled (c :: cancelled s) s)) by (apply T_same_outs; reflexivity).
+      destruct (mem c (follows s)).
+      * destruct (nested p _) as [s1 e1] eqn:E1. cbn [fst snd]. destruct (nested_T _ _ _ _ E1) as [T1 U1].
+        split; [exact (T_trans _ _ _ _ _ T0 T1) | apply Down_up; rewrite U1; exact Hup].
+      * cbn [fst snd]. split; [exact T0 | apply Down_up; exact Hup].
+    + destruct (HD Hup) as (A & B & _). rewrite A, B. cbn. split; [apply T_refl | exact HD].
   - (* disconnect *) destruct (up s) eqn:Hup.
     + destruct (lose s) as [s1 e1] eqn:E1. cbn [fst snd]. destruct (lose_T _ _ _ E1) as (T1 & _ & D1).
       split; [|exact D1]. change (ELost :: e1) with ([ELost] ++ e1).
@@ -342,7 +360,8 @@ Proof.
 Qed.
 Lemma fire_result_K : forall q c r s s' e, fire_result q c r s = (s', e) -> K s -> K s'.
 Proof.
-  intros q c r s s' e H HK. unfold fire_result, nested in H. destruct (mem c (follows s)).
+  intros q c r s s' e H HK. unfold fire_result, nested in H.
+  destruct (mem c (cancelled s)); [now injection H as <- <-|]. destruct (mem c (follows s)).
   - destruct (place q Know s) as [s1 e1] eqn:E1. injection H as <- <-. eapply place_K; eauto.
   - now injection H as <- <-.
 Qed.
@@ -390,7 +409,7 @@ Qed.
 
 Lemma step_K : forall s o, K s -> K (fst (step s o)).
 Proof.
-  intros s o HK. destruct o as [p k f|d n|i o|]; cbn [step].
+  intros s o HK. destruct o as [p k f|d n|i o|c|]; cbn [step].
   - assert (K0 : K (if f then set_follows (ncalls s :: follows s) s else s))
       by (destruct f; [eapply K_same; [| | | |exact HK]; reflexivity | exact HK]).
     destruct (up s).
@@ -404,6 +423,11 @@ Proof.
       * destruct (close_by me _) as [s1 e1] eqn:E1. cbn [fst]. eapply close_by_K; eauto.
       * cbn [fst]. eapply K_same; [| | | |exact HK]; destruct me; reflexivity.
     + cbn [fst]. eapply K_same; [| | | |exact HK]; reflexivity.
+  - destruct (mem c (cancelled s)); [exact HK|].
+    destruct (if mem c (map snd (outA s)) then Some false else if mem c (map snd (outB s)) then Some true else None) as [p|]; [|exact HK].
+    assert (K0 : K (set_cancelled (c :: cancelled s) s)) by (eapply K_same; [| | | |exact HK]; reflexivity).
+    destruct (mem c (follows s)); [|exact K0].
+    unfold nested. destruct (place p Know _) as [s1 e1] eqn:E1. cbn [fst]. eapply place_K; eauto.
   - destruct (up s); cbn [fst]; auto. pose proof (lose_K s) as HL. destruct (lose s) as [s1 e1]. exact HL.
 Qed.
 
@@ -426,12 +450,14 @@ Qed.
 (** an answer whose tag is outstanding resolves exactly the request filed under that tag *)
 Lemma answer_resolves_its_tag : forall s q tag n c,
   lookup tag (outs s q) = Some c ->
-  exists s1 rest, deliver_box q (BAns tag n) s = (s1, EResult c (ROk n) :: rest, false).
+  exists s1 x rest, deliver_box q (BAns tag n) s = (s1, x :: rest, false)
+                    /\ (x = EResult c (ROk n) \/ x = EAbsorbed c (ROk n)).
 Proof.
   intros s q tag n c H. cbn [deliver_box]. rewrite H. unfold fire_result.
+  destruct (mem c (cancelled _)); [do 3 eexists; split; [reflexivity | now right]|].
   destruct (mem c (follows _)).
-  - destruct (nested q _) as [s1 e1]. exists s1, e1. reflexivity.
-  - eexists. exists []. reflexivity.
+  - destruct (nested q _) as [s1 e1]. exists s1, (EResult c (ROk n)), e1. split; [reflexivity | now left].
+  - do 3 eexists. split; [reflexivity | now left].
 Qed.
 
 Example sample_history :
@@ -441,15 +467,15 @@ Example sample_history :
 Proof. vm_compute. split; reflexivity. Qed.
 
 (** a call made after the loss fails at once, and so does the call its errback makes *)
-Lemma call_after_loss : forall s p k f, up s = false ->
+Lemma call_after_loss : forall s p k f, up s = false -> mem (ncalls s) (cancelled s) = false ->
   let r := step s (OCall p k f) in
   up (fst r) = false /\ outA (fst r) = outA s /\ outB (fst r) = outB s /\
   (snd r = [ECall (ncalls s) k; EResult (ncalls s) RLost] \/
    snd r = [ECall (ncalls s) k; EResult (ncalls s) RLost;
             ENested (S (ncalls s)); ECall (S (ncalls s)) Know; EResult (S (ncalls s)) RLost]).
 Proof.
-  intros s p k f U. cbn [step]. rewrite U. unfold fire_result, nested, place.
-  destruct f; cbn [follows set_follows set_ncalls up ncalls].
+  intros s p k f U Hc. cbn [step]. rewrite U. unfold fire_result, nested, place.
+  destruct f; cbn [follows cancelled set_follows set_ncalls up ncalls]; rewrite Hc.
   - cbn [mem existsb]. rewrite Nat.eqb_refl. cbn [orb]. rewrite U. cbn. auto.
   - destruct (mem (ncalls s) (follows s)); [rewrite U|]; cbn; auto.
 Qed.
@@ -458,10 +484,10 @@ Qed.
     once by the failure of the call its errback makes -- and nothing else *)
 Lemma loss_fails_all : forall s, up s = true ->
   let r := step s ODisc in
-  snd r = ELost :: fst (fail_all (outA s ++ outB s) (follows s) (ncalls s))
+  snd r = ELost :: fst (fail_all (outA s ++ outB s) (follows s) (cancelled s) (ncalls s))
   /\ outA (fst r) = [] /\ outB (fst r) = [] /\ up (fst r) = false
   /\ Permutation (F (snd r)) (map snd (outA s ++ outB s) ++ seq (ncalls s) (ncalls (fst r) - ncalls s)).
 Proof.
   intros s U. cbn [step]. rewrite U. unfold lose. destruct (fail_all _ _ _) as [e n] eqn:E. cbn.
-  repeat split; auto. apply (fail_all_spec _ _ _ _ _ E).
+  repeat split; auto. apply (fail_all_spec _ _ _ _ _ _ E).
 Qed.
